@@ -115,6 +115,33 @@ def status_task(t):
     return dict(n=n, distinct=len(distinct), violations=viols, sample=sample)
 
 
+def pair_task(t):
+    """two replies on the SAME client object: the second result must mirror the second reply only"""
+    op, part, parts = t
+    shapes = [x for x in W.status_variants() if x[2] != b"BYE"]
+    viols = []
+    n = 0
+    k = 0
+    for l1, line1, code1, rc1, tx1 in shapes:
+        for l2, line2, code2, rc2, tx2 in shapes:
+            k += 1
+            if k % parts != part or code2 != b"NO":
+                continue
+            srv = W.ScriptedServer(store={"a": b"keep;\r\n"}, active="a", version=True)
+            s = wire.open_session(srv)
+            srv.script = [line1, line2]
+            s.call(op, *OPS[op])
+            o = s.call(op, *OPS[op])
+            n += 1
+            bad = judge(op, None, code2, rc2, tx2, o, None)
+            if bad:
+                viols.append({"property": "C09", "engine": "wire", "signature": ["C09", op, "after:%s then:%s" % (l1, l2), "second-reply:" + bad[0]],
+                              "what": "%s answered %r after an earlier %r on the same client: %s" % (op, line2, line1, bad[1]),
+                              "case": {"kind": "pair", "op": op, "l1": l1, "l2": l2},
+                              "witness": "%s <- %r then %r" % (op, line1, line2), "observed": o.brief()})
+    return dict(n=n, distinct=n, violations=viols, sample=None)
+
+
 STEPS_CONNECT = ["GREETING", "STARTTLS", "TLSCAPS", "AUTHRESULT"]
 STEPS_RENAME = ["LISTSCRIPTS", "GETSCRIPT", "PUTSCRIPT", "SETACTIVE", "DELETESCRIPT"]
 
@@ -200,7 +227,9 @@ def multi_task(t):
 def run(tier, seed):
     r1 = pool.run_tasks("checks.c09:status_task", [(op, tier) for op in OPS])
     r2 = pool.run_tasks("checks.c09:multi_task", ["connect", "rename"])
-    res = r1 + r2
+    pair_ops = ["havespace", "getscript"] if tier == "quick" else list(OPS)
+    r3 = pool.run_tasks("checks.c09:pair_task", [(op, i, 8) for op in pair_ops for i in range(8)])
+    res = r1 + r2 + r3
     n = sum(r["n"] for r in res)
     viols = []
     for r in res:
@@ -220,6 +249,11 @@ def run(tier, seed):
 def replay(payload):
     c = payload["case"]
     sig = payload["signature"]
+    if c["kind"] == "pair":
+        out = []
+        for i in range(8):
+            out.extend(pair_task((c["op"], i, 8))["violations"])
+        return [v for v in out if v["signature"] == sig]
     if c["kind"] == "status":
         r = status_task((c["op"], "quick"))
     else:
